@@ -3,10 +3,14 @@
 //! Two directions, both from a generated *abstract font description* `desc` (a PV tree keyed by the names of the
 //! UFO 3 specification; the table ident -> key below is this harness's own, not norad's serde table):
 //!
+//!   `C05 n2i <feat|-> [<pre>] <desc> => <tree>`   (pre = `-` fresh target | `rich` an older, richer UFO is already there |
+//!        `junk` a directory with foreign files is there: `Font::save` must leave nothing of it)
 //!   `C05 n2i <feat|-> <desc> => <tree>`          the description is turned into a `Font` (struct fields by Rust
 //!        identifier), saved with `Font::save`, read back by tools/indep_ufo.py (xml.etree + plistlib) into a
 //!        generic value tree; the driver looks the values up under the specification's names.
-//!   `C05 i2n <seed> <want|-> <desc> => <applied|-> <ok <dump> | err:<class> | panic>`
+//!   `C05 i2n <seed> <want|-> [<req>] <desc> => <applied|-> <ok <dump> | err:<class> | panic>`   (req = `all` Font::load |
+//!        `default-only` none().default_layer(true) | `all-default` all().default_layer(true) | `named` all().filter_layers(name
+//!        of the default layer): loaded through `Font::load_requested_data`)
 //!        the description is written by tools/indep_ufo.py with randomised legal surface syntax (seed) and at most
 //!        one rare spelling (`want`), loaded with `Font::load` and dumped through public getters in desc form.
 //!
@@ -1029,7 +1033,16 @@ const STRINGS: &[&str] = &[
     "a", "Regular", "Some Family", "x < y & z > w", "quote \" and ' apostrophe", "caf\u{e9} \u{4e2d}\u{6587}", "\u{1F600} astral",
     "two  blanks", "line1\nline2", "tab\there", "]]> cdata end", "&amp; already", "100%", "a/b\\c", "\u{2028}sep",
 ];
-const GLYPH_NAMES: &[&str] = &["a", "A", "a.alt", "uni0041", "\u{e9}", "x y", "q\"<&>'", "A_B", ".notdef", "space", "b", "zero.sups"];
+const GLYPH_NAMES: &[&str] = &[
+    "a", "A", "a.alt", "uni0041", "\u{e9}", "x y", "q\"<&>'", "A_B", ".notdef", "space", "b", "zero.sups", "\u{c4}*", "\u{416}.sc",
+];
+/// names that the user-name-to-file-name convention maps to ONE file name (they differ only in characters that are
+/// illegal in file names, or in a leading period vs. underscore), with ASCII and with non-ASCII capitals: the second
+/// of a pair must get a numbered file name
+const CLASH_PAIRS: &[(&str, &str)] = &[
+    ("\u{c4}*", "\u{c4}?"), (".\u{416}", "_\u{416}"), ("A*", "A?"), ("\u{c9}|x", "\u{c9}\"x"), ("\u{3a9}:", "\u{3a9}/"),
+    ("\u{c4}*", "\u{e4}_*"),
+];
 const IDENTS: &[&str] = &["id1", "ID2", "a b", "q\"<&>'", "~tilde~", "0123456789", "x.y-z_w", "{curly}", "p#1", "p#2", "p#3", "p#4"];
 
 fn pick_str(rng: &mut Rng) -> String {
@@ -1688,6 +1701,14 @@ fn gen_desc(rng: &mut Rng, default_first: bool, feat: &str, all_info: bool) -> P
                 names.push(g);
             }
         }
+        if rng.chance(1, 6) {
+            let (a, b) = *rng.pick(CLASH_PAIRS);
+            for n in [a, b] {
+                if !names.contains(&n) {
+                    names.push(n);
+                }
+            }
+        }
         names.sort();
         let gl: Vec<PV> = names
             .iter()
@@ -1746,14 +1767,52 @@ fn variant(dbg: &str) -> String {
     dbg.chars().take_while(|c| c.is_alphanumeric()).collect()
 }
 
+/// an older, richer UFO (written by hand, not by norad) that already sits at the target of a save
+fn write_old_ufo(root: &Path) {
+    let pl = |body: &str| format!("<?xml version=\"1.0\" encoding=\"UTF-8\"?>\n<plist version=\"1.0\">\n{}\n</plist>\n", body);
+    let put = |rel: &str, data: &[u8]| {
+        let p = root.join(rel);
+        std::fs::create_dir_all(p.parent().unwrap()).unwrap();
+        std::fs::write(p, data).unwrap();
+    };
+    put("metainfo.plist", pl("<dict><key>creator</key><string>old.tool</string><key>formatVersion</key><integer>3</integer></dict>").as_bytes());
+    put("fontinfo.plist", pl("<dict><key>familyName</key><string>Old Family</string><key>unitsPerEm</key><integer>999</integer></dict>").as_bytes());
+    put("lib.plist", pl("<dict><key>old.key</key><string>old value</string></dict>").as_bytes());
+    put("groups.plist", pl("<dict><key>oldgroup</key><array><string>old</string></array></dict>").as_bytes());
+    put("kerning.plist", pl("<dict><key>old</key><dict><key>old</key><integer>-99</integer></dict></dict>").as_bytes());
+    put("features.fea", b"# old features\n");
+    put("layercontents.plist", pl("<array><array><string>oldfore</string><string>glyphs</string></array><array><string>oldlayer</string><string>glyphs.oldlayer</string></array></array>").as_bytes());
+    let glif = b"<?xml version=\"1.0\" encoding=\"UTF-8\"?>\n<glyph name=\"old\" format=\"2\"><advance width=\"99\"/></glyph>\n";
+    for d in ["glyphs", "glyphs.oldlayer"] {
+        put(&format!("{}/contents.plist", d), pl("<dict><key>old</key><string>old.glif</string></dict>").as_bytes());
+        put(&format!("{}/old.glif", d), glif);
+        put(&format!("{}/layerinfo.plist", d), pl("<dict><key>color</key><string>1,0,0,1</string></dict>").as_bytes());
+    }
+    put("data/old/old.txt", b"old data");
+    put("images/old.png", PNG);
+    put("notes.txt", b"a foreign file");
+}
+
+fn write_junk(root: &Path) {
+    std::fs::create_dir_all(root.join("sub/dir")).unwrap();
+    std::fs::write(root.join("junk.bin"), [0u8, 1, 2]).unwrap();
+    std::fs::write(root.join("kerning.plist"), b"not a plist at all").unwrap();
+    std::fs::write(root.join("sub/dir/x.txt"), b"x").unwrap();
+}
+
 /// n2i: build, save, (python reads) -> observation per case
-fn run_n2i(cases: &[(String, PV)], scratch: &Path) -> Vec<String> {
+fn run_n2i(cases: &[(String, String, PV)], scratch: &Path) -> Vec<String> {
     let dir = scratch.join("n2i");
     rm_rf(&dir);
     std::fs::create_dir_all(&dir).unwrap();
     let mut status = Vec::new();
-    for (i, (_, desc)) in cases.iter().enumerate() {
+    for (i, (_, pre, desc)) in cases.iter().enumerate() {
         let target = dir.join(format!("{}.ufo", i));
+        match pre.as_str() {
+            "rich" => write_old_ufo(&target),
+            "junk" => write_junk(&target),
+            _ => {}
+        }
         let r = guarded(|| {
             let font = font_of(desc);
             font.save(&target)
@@ -1777,14 +1836,31 @@ fn run_n2i(cases: &[(String, PV)], scratch: &Path) -> Vec<String> {
     status.into_iter().zip(lines).map(|(st, l)| st.unwrap_or(l)).collect()
 }
 
+fn load_with_request(src: &Path, req: &str, desc: &PV) -> Result<Font, norad::error::FontLoadError> {
+    use norad::DataRequest;
+    match req {
+        "default-only" => Font::load_requested_data(src, DataRequest::none().default_layer(true)),
+        "all-default" => Font::load_requested_data(src, DataRequest::all().default_layer(true)),
+        "named" => {
+            // the default layer, asked for by the name the independent writer gave it
+            let want: String = desc.get("layers").unwrap().arr().iter()
+                .find(|l| l.get("dir").map(|d| d.str() == "glyphs").unwrap_or(false))
+                .map(|l| l.get("name").unwrap().str().to_string())
+                .unwrap_or_default();
+            Font::load_requested_data(src, DataRequest::all().filter_layers(move |n, _| n == want))
+        }
+        _ => Font::load(src),
+    }
+}
+
 /// i2n: (python writes), load, dump -> observation per case
-fn run_i2n(cases: &[(u64, String, PV)], scratch: &Path) -> Vec<String> {
+fn run_i2n(cases: &[(u64, String, String, PV)], scratch: &Path) -> Vec<String> {
     let dir = scratch.join("i2n");
     rm_rf(&dir);
     std::fs::create_dir_all(&dir).unwrap();
     let batch = dir.join("batch.txt");
     let mut text = String::new();
-    for (seed, want, desc) in cases {
+    for (seed, want, _, desc) in cases {
         text.push_str(&format!("{} {} {}\n", seed, want, desc.encode()));
     }
     std::fs::write(&batch, text).unwrap();
@@ -1792,7 +1868,7 @@ fn run_i2n(cases: &[(u64, String, PV)], scratch: &Path) -> Vec<String> {
     let mut out = Vec::new();
     for (i, ap) in applied.iter().enumerate() {
         let src = dir.join(format!("{}.ufo", i));
-        let r = guarded(|| Font::load(&src));
+        let r = guarded(|| load_with_request(&src, &cases[i].2, &cases[i].3));
         let obs = match r {
             Ok(Ok(font)) => format!("ok {}", font_pv(&font).encode()),
             Ok(Err(e)) => {
@@ -1813,8 +1889,14 @@ fn run_i2n(cases: &[(u64, String, PV)], scratch: &Path) -> Vec<String> {
 
 pub fn observe(toks: &[&str], scratch: &Path) -> String {
     match toks[0] {
-        "n2i" => run_n2i(&[(toks[1].to_string(), PV::decode(toks[2]))], scratch).remove(0),
-        "i2n" => run_i2n(&[(toks[1].parse().unwrap(), toks[2].to_string(), PV::decode(toks[3]))], scratch).remove(0),
+        "n2i" if toks.len() == 3 => run_n2i(&[(toks[1].to_string(), "-".to_string(), PV::decode(toks[2]))], scratch).remove(0),
+        "n2i" => run_n2i(&[(toks[1].to_string(), toks[2].to_string(), PV::decode(toks[3]))], scratch).remove(0),
+        "i2n" if toks.len() == 4 => {
+            run_i2n(&[(toks[1].parse().unwrap(), toks[2].to_string(), "all".to_string(), PV::decode(toks[3]))], scratch).remove(0)
+        }
+        "i2n" => {
+            run_i2n(&[(toks[1].parse().unwrap(), toks[2].to_string(), toks[3].to_string(), PV::decode(toks[4]))], scratch).remove(0)
+        }
         _ => "bad-direction".to_string(),
     }
 }
@@ -1844,12 +1926,14 @@ pub fn gen(tier: &str, seed: u64, out: &mut dyn Write) {
             // the first two fonts of a run carry every font-info key
             let all_info = first && j < 2;
             let feat = if !all_info && rng.chance(1, 25) { *rng.pick(N2I_FEATS) } else { "-" };
-            cases.push((feat.to_string(), gen_desc(&mut rng, true, feat, all_info)));
+            // one save in four goes over something that is already there
+            let pre = if feat != "-" { "-" } else { *rng.pick(&["-", "-", "-", "-", "-", "-", "rich", "junk"]) };
+            cases.push((feat.to_string(), pre.to_string(), gen_desc(&mut rng, true, feat, all_info)));
         }
         first = false;
         let obs = run_n2i(&cases, &scratch);
-        for ((feat, desc), o) in cases.iter().zip(obs) {
-            writeln!(out, "C05 n2i {} {} => {}", feat, desc.encode(), o).unwrap();
+        for ((feat, pre, desc), o) in cases.iter().zip(obs) {
+            writeln!(out, "C05 n2i {} {} {} => {}", feat, pre, desc.encode(), o).unwrap();
         }
     }
     // ---- the independent writer writes, norad reads
@@ -1863,12 +1947,13 @@ pub fn gen(tier: &str, seed: u64, out: &mut dyn Write) {
             let all_info = first && j < 2;
             let want = if !all_info && rng.chance(1, 12) { *rng.pick(I2N_FEATS) } else { "-" };
             let s = rng.next() >> 1;
-            cases.push((s, want.to_string(), gen_desc(&mut rng, false, want, all_info)));
+            let req = if want != "-" { "all" } else { *rng.pick(&["all", "all", "all", "all", "all", "default-only", "all-default", "named"]) };
+            cases.push((s, want.to_string(), req.to_string(), gen_desc(&mut rng, false, want, all_info)));
         }
         first = false;
         let obs = run_i2n(&cases, &scratch);
-        for ((s, want, desc), o) in cases.iter().zip(obs) {
-            writeln!(out, "C05 i2n {} {} {} => {}", s, want, desc.encode(), o).unwrap();
+        for ((s, want, req, desc), o) in cases.iter().zip(obs) {
+            writeln!(out, "C05 i2n {} {} {} {} => {}", s, want, req, desc.encode(), o).unwrap();
         }
     }
     rm_rf(&scratch);
